@@ -24,13 +24,16 @@ package hash
 //   balance      statistical, thresholds derived below
 
 import (
+	"errors"
 	"fmt"
 	"math"
 	"os"
 	"reflect"
 	"sort"
 	"strconv"
+	"strings"
 	"testing"
+	"time"
 
 	"pgregory.net/rapid"
 	"verif.local/kit"
@@ -58,6 +61,7 @@ type c13Op struct {
 	W int    `json:"w,omitempty"` // addw: weight, addr: replicas
 	F bool   `json:"f,omitempty"` // (re-)add with a fresh object of the same identity
 	A int    `json:"a,omitempty"` // 1,2: use another Go representation with the SAME repr (string / *Stringer / []byte), if the node's kind has one
+	U bool   `json:"u,omitempty"` // UNSPECIFIED setting (negative, or a weight whose product with the replicas overflows): only as the last op, run for panics / hangs only
 }
 
 type c13Case struct {
@@ -65,6 +69,9 @@ type c13Case struct {
 	NilFn bool    `json:"nilfn,omitempty"` // custom constructor gets fn == nil instead of Hash
 	Style int     `json:"style"`           // node naming scheme (3 = collision prone)
 	Kinds []int   `json:"kinds"`           // representation per node: 0 string, 1 struct, 2 *Stringer, 3 *struct, 4 int, 5 struct with a slice field (not comparable), 6 []byte, 7 []string
+	Neg   int     `json:"neg,omitempty"`   // != 0: NewCustomConsistentHash(Neg, fn) with a negative replica count (clamped like any value < 100)
+	Twin  bool    `json:"twin,omitempty"`  // a second ring with other replicas lives in the same process, gets every other op and shares the node objects
+	PK    bool    `json:"pk,omitempty"`    // after every op a key whose String() panics is looked up; every call runs under a watchdog
 	KS    int     `json:"ks"`              // probe key seed
 	NK    int     `json:"nk"`              // number of probe keys
 	Ops   []c13Op `json:"ops"`
@@ -102,6 +109,12 @@ var c13Prone = []string{"1", "11", "2", "21", "12", "3", "31", "22"}
 // c13Name: styles 0..2 give names of equal length (no name is another name
 // followed by digits, so "repr+i" strings of different nodes never coincide);
 // style 3 is collision prone on purpose ("n1"+"10" == "n11"+"0").
+// c13Alphabet (style 4): names from the full alphabet — format verbs, NUL,
+// invalid UTF-8, multi-byte, glob/shell specials, blanks, two 1 KiB names with
+// a common prefix, and the empty name. Every non-empty name ends in a distinct
+// letter, so no name is another name followed by digits.
+var c13Alphabet = []string{"", strings.Repeat("x", 1024), strings.Repeat("x", 1024), "%s%d%!v(BADPREC)%", "a\x00b", "\xff\xfe\xfd", "节点-α/β", " a/b\\c*?[$`'\" ", "UPPER lower"}
+
 func c13Name(c c13Case, idx int) string {
 	if idx < len(c.Kinds) && c.Kinds[idx] == 4 { // int node: its repr is the decimal number
 		switch c.Style {
@@ -109,7 +122,7 @@ func c13Name(c c13Case, idx int) string {
 			return strconv.Itoa(6379 + idx)
 		case 1:
 			return strconv.Itoa(11 + idx)
-		case 2:
+		case 2, 4:
 			return strconv.Itoa(100 + idx)
 		default:
 			return c13Prone[idx%len(c13Prone)]
@@ -122,6 +135,11 @@ func c13Name(c c13Case, idx int) string {
 		return "10.0.0." + strconv.Itoa(11+idx) + ":6379"
 	case 2:
 		return "cache-" + string(rune('a'+idx))
+	case 4:
+		if idx == 0 {
+			return ""
+		}
+		return c13Alphabet[idx%len(c13Alphabet)] + string(rune('a'+idx))
 	default:
 		return "n" + c13Prone[idx%len(c13Prone)]
 	}
@@ -230,36 +248,149 @@ func c13Ident(c c13Case) func(any) int {
 	}
 }
 
+// c13SKey: a key type with a String() method (value receiver).
+type c13SKey string
+
+func (k c13SKey) String() string { return "skey<" + string(k) + ">" }
+
+// c13PanicKey: a key whose String() panics (user code failing inside Get).
+type c13PanicKey struct{}
+
+var errC13Key = errors.New("c13: key String() panicked")
+
+func (c13PanicKey) String() string { panic(errC13Key) }
+
+// c13Keys: "every key" — ints, strings, structs, pointers, nil, typed nil,
+// []byte, error and Stringer values, floats, values of an uncomparable type,
+// large magnitudes, and strings from the full alphabet (format verbs, NUL,
+// invalid UTF-8, empty, 100 B .. 4 KiB, in some cases one key of 32 KiB / 64 KiB+1 / 1 MiB), all built from seed.
 func c13Keys(seed, n int) []any {
 	keys := make([]any, n)
 	for i := range keys {
-		switch i % 4 {
+		switch i % 13 {
 		case 0:
 			keys[i] = seed*7919 + i
 		case 1:
 			keys[i] = "user:" + strconv.Itoa(seed) + ":" + strconv.Itoa(i)
 		case 2:
 			keys[i] = c13Key{S: "order", N: seed + i}
-		default:
+		case 3:
 			keys[i] = &c13Key{S: "p", N: seed ^ i}
+		case 4:
+			if i%2 == 0 {
+				keys[i] = nil
+			} else {
+				keys[i] = (*c13Key)(nil)
+			}
+		case 5:
+			keys[i] = []byte("bytes:" + strconv.Itoa(seed+i))
+		case 6:
+			keys[i] = fmt.Errorf("err %d: %w", seed+i, errC13Key)
+		case 7:
+			keys[i] = c13SKey(strconv.Itoa(seed * i))
+		case 8:
+			keys[i] = float64(seed) + float64(i)/7
+		case 9:
+			keys[i] = c13Tagged{Addr: "k", ID: seed + i, Tags: []string{strconv.Itoa(i)}}
+		case 10:
+			mags := []any{uint64(1<<63 + uint64(i)), int64(math.MinInt64 + int64(i)), int64(1<<53 + int64(i)), uint32(1<<32 - 1 - uint32(i%7)), int16(-1<<15 + int16(i%5)), uint8(255 - i%3), true}
+			keys[i] = mags[(seed+i)%len(mags)]
+		case 11:
+			specials := []string{"", "%s%d%!v", "k\x00" + strconv.Itoa(i), "\xff\xfe" + strconv.Itoa(seed), "键-" + strconv.Itoa(i), " lead " + strconv.Itoa(i) + " ", "*?[a-z]{1,2}$(x)`y`"}
+			keys[i] = specials[(seed+i/13)%len(specials)]
+		default:
+			sizes := []int{100, 255, 256, 257, 1000, 4096}
+			size := sizes[(seed+i/13)%len(sizes)]
+			if i == 12 { // one big key per case: 32 KiB / 64 KiB(+1) in 1 case of 8 each, 1 MiB in 1 of 64
+				switch {
+				case seed%64 == 0:
+					size = 1 << 20
+				case seed%8 == 1:
+					size = 65537
+				case seed%8 == 2:
+					size = 32768
+				}
+			}
+			keys[i] = strings.Repeat(string(rune('a'+(seed+i)%26)), size) + strconv.Itoa(i)
 		}
 	}
 	return keys
 }
 
+// c13DistinctKeys: the key population of the balance rule. Its thresholds treat
+// the keys as independent draws, so every key must have its own repr (the
+// diverse population of c13Keys repeats nil, "", small magnitudes ...).
+func c13DistinctKeys(seed, n int) []any {
+	keys := make([]any, n)
+	for i := range keys {
+		switch i % 7 {
+		case 0:
+			keys[i] = seed*7919 + i
+		case 1:
+			keys[i] = "user:" + strconv.Itoa(seed) + ":" + strconv.Itoa(i)
+		case 2:
+			keys[i] = c13Key{S: "order", N: seed + i}
+		case 3:
+			keys[i] = &c13Key{S: "p", N: seed ^ i}
+		case 4:
+			keys[i] = []byte("bytes:" + strconv.Itoa(seed) + ":" + strconv.Itoa(i))
+		case 5:
+			keys[i] = float64(seed) + float64(i)/8 // exact in binary: distinct
+		default:
+			keys[i] = c13Tagged{Addr: "k", ID: i, Tags: []string{strconv.Itoa(seed)}}
+		}
+	}
+	return keys
+}
+
+// c13Show: a key as printed in messages (long keys abbreviated).
+func c13Show(k any) string {
+	s := fmt.Sprintf("%T(%v)", k, k)
+	if len(s) > 120 {
+		s = s[:100] + fmt.Sprintf("...[%d bytes]", len(s))
+	}
+	return s
+}
+
+// c13Guard runs f under a watchdog: a call that does not return within 20 s of
+// real time (a leaked lock) is reported instead of blocking the run.
+func c13Guard(f func() string) string {
+	done := make(chan string, 1)
+	go func() { done <- f() }()
+	select {
+	case r := <-done:
+		return r
+	case <-time.After(20 * time.Second):
+		return "the call did not return within 20 s (a lock is still held?)"
+	}
+}
+
 func c13New(c c13Case) *ConsistentHash {
+	var fn Func = Hash
+	if c.NilFn {
+		fn = nil
+	}
+	if c.Neg != 0 {
+		return NewCustomConsistentHash(c.Neg, fn)
+	}
 	if c.R < 0 {
 		return NewConsistentHash()
 	}
-	if c.NilFn {
-		return NewCustomConsistentHash(c.R, nil)
-	}
-	return NewCustomConsistentHash(c.R, Hash)
+	return NewCustomConsistentHash(c.R, fn)
+}
+
+// c13TwinCase: the configuration of the second ring of a Twin case.
+func c13TwinCase(c c13Case) c13Case {
+	t := c
+	t.Neg = 0
+	t.NilFn = !c.NilFn
+	t.R = c13EffR(c) + 37
+	return t
 }
 
 // c13EffR: replicas of a full-weight node ("default replicas").
 func c13EffR(c c13Case) int {
-	if c.R < 100 {
+	if c.R < 100 || c.Neg != 0 {
 		return 100
 	}
 	return c.R
@@ -437,6 +568,8 @@ func c13Interp(c c13Case) (v kit.Verdict) {
 	keys := c13Keys(c.KS, c.NK)
 	h := c13New(c)
 	switch {
+	case c.Neg != 0:
+		classes["ring:negative-replicas"] = true
 	case c.R < 0:
 		classes["ring:default"] = true
 	case c.R < 100:
@@ -444,19 +577,37 @@ func c13Interp(c c13Case) (v kit.Verdict) {
 	default:
 		classes["ring:custom"] = true
 	}
+	if c.Style == 4 {
+		classes["names:alphabet"] = true
+	}
 	st := make([]c13State, nn)
+	// second, independent ring in the same process (other replicas, other hash-func form)
+	var h2 *ConsistentHash
+	var st2 []c13State
+	tc := c13TwinCase(c)
+	if c.Twin {
+		h2 = c13New(tc)
+		st2 = make([]c13State, nn)
+		classes["twin-instance"] = true
+	}
+	apply := func(ring *ConsistentHash, o c13Op, obj any) string {
+		if !c.PK {
+			return c13Apply(ring, o, obj)
+		}
+		return c13Guard(func() string { return c13Apply(ring, o, obj) })
+	}
 	before, pan := c13Lookup(h, keys, ident)
 	if pan != "" {
 		return v.Failf("Get on an empty ring panicked: %s", pan)
 	}
 	for i, r := range before {
 		if r.idx != -1 {
-			return v.Failf("empty ring: Get(%v) returned (%v, ok)", keys[i], r.obj)
+			return v.Failf("empty ring: Get(%s) returned (%v, ok)", c13Show(keys[i]), r.obj)
 		}
 	}
 	excluded := false
 	for i, o := range c.Ops {
-		what := fmt.Sprintf("op %d %s(node %d %q kind %d as kind %d, %d)", i, o.K, o.N, c13Name(c, o.N), c.Kinds[o.N], c13KindOf(c, o.N, o.A), o.W)
+		what := fmt.Sprintf("op %d %s(node %d %.60q kind %d as kind %d, %d)", i, o.K, o.N, c13Name(c, o.N), c.Kinds[o.N], c13KindOf(c, o.N, o.A), o.W)
 		prev := st[o.N]
 		obj := prev.obj
 		if obj == nil || (o.F && o.K != "rm") || c13KindOf(c, o.N, o.A) != c.Kinds[o.N] {
@@ -469,7 +620,34 @@ func c13Interp(c c13Case) (v kit.Verdict) {
 			tainted = true
 			classes["foreign-position-trigger"] = true
 		}
-		pan := c13Apply(h, o, obj)
+		if o.U { // UNSPECIFIED setting: panics and hangs only, nothing is judged afterwards
+			classes["unspecified-setting"] = true
+			if pan := c13Guard(func() string { return c13Apply(h, o, obj) }); pan != "" {
+				return v.Failf("%s: %s", what, pan)
+			}
+			if _, pan := c13Lookup(h, keys, ident); pan != "" {
+				return v.Failf("%s: Get panicked afterwards: %s", what, pan)
+			}
+			return v
+		}
+		pan := apply(h, o, obj)
+		if c.Twin && i%2 == 1 && pan == "" {
+			pan = apply(h2, o, obj)
+			if o.K == "rm" {
+				st2[o.N] = c13State{}
+			} else {
+				pos, lo, hi := c13Setting(o, c13EffR(tc))
+				st2[o.N] = c13State{present: true, positive: pos, op: o, obj: obj, lo: lo, hi: hi}
+			}
+		}
+		if c.PK && pan == "" { // user code panicking inside Get must not leave the ring locked
+			classes["panicking-key"] = true
+			_ = c13Guard(func() string {
+				defer func() { _ = recover() }()
+				_, _ = h.Get(c13PanicKey{})
+				return ""
+			})
+		}
 		if excluded {
 			_, _ = c13Lookup(h, keys, ident)
 			continue
@@ -538,23 +716,23 @@ func c13Interp(c c13Case) (v kit.Verdict) {
 			a, b := after[k], before[k]
 			// stability
 			if again[k].idx != a.idx || !c13Same(again[k].obj, a.obj) {
-				return v.Failf("%s: Get(%v) returned node %d then node %d with unchanged membership", what, keys[k], a.idx, again[k].idx)
+				return v.Failf("%s: Get(%s) returned node %d then node %d with unchanged membership", what, c13Show(keys[k]), a.idx, again[k].idx)
 			}
 			// totality
 			if !anyPositive {
 				if a.idx != -1 {
-					return v.Failf("%s: no node of positive weight is present but Get(%v) returned node %d (%v)", what, keys[k], a.idx, a.obj)
+					return v.Failf("%s: no node of positive weight is present but Get(%s) returned node %d (%v)", what, c13Show(keys[k]), a.idx, a.obj)
 				}
 			} else {
 				switch {
 				case a.idx == -1:
-					return v.Failf("%s: Get(%v) reports absence although a node of positive weight is present", what, keys[k])
+					return v.Failf("%s: Get(%s) reports absence although a node of positive weight is present", what, c13Show(keys[k]))
 				case a.idx < 0 || !st[a.idx].present:
-					return v.Failf("%s: Get(%v) returned %v, which is not a currently added node", what, keys[k], a.obj)
+					return v.Failf("%s: Get(%s) returned %v, which is not a currently added node", what, c13Show(keys[k]), a.obj)
 				case !st[a.idx].positive:
-					return v.Failf("%s: Get(%v) returned node %d, which was added with weight 0", what, keys[k], a.idx)
+					return v.Failf("%s: Get(%s) returned node %d, which was added with weight 0", what, c13Show(keys[k]), a.idx)
 				case !c13Same(a.obj, st[a.idx].obj):
-					return v.Failf("%s: Get(%v) returned a replaced object of node %d (%#v), not the one added last (%#v)", what, keys[k], a.idx, a.obj, st[a.idx].obj)
+					return v.Failf("%s: Get(%s) returned a replaced object of node %d (%#v), not the one added last (%#v)", what, c13Show(keys[k]), a.idx, a.obj, st[a.idx].obj)
 				}
 			}
 			// minimal disruption
@@ -563,15 +741,15 @@ func c13Interp(c c13Case) (v kit.Verdict) {
 				switch {
 				case o.K == "rm":
 					if b.idx != o.N {
-						return v.Failf("%s: key %v moved from node %d to node %d although it was not on the removed node", what, keys[k], b.idx, a.idx)
+						return v.Failf("%s: key %s moved from node %d to node %d although it was not on the removed node", what, c13Show(keys[k]), b.idx, a.idx)
 					}
 				case !prev.present:
 					if a.idx != o.N {
-						return v.Failf("%s: key %v moved from node %d to node %d, not to the added node", what, keys[k], b.idx, a.idx)
+						return v.Failf("%s: key %s moved from node %d to node %d, not to the added node", what, c13Show(keys[k]), b.idx, a.idx)
 					}
 				default:
 					if a.idx != o.N && b.idx != o.N {
-						return v.Failf("%s: key %v moved from node %d to node %d, neither is the re-added node", what, keys[k], b.idx, a.idx)
+						return v.Failf("%s: key %s moved from node %d to node %d, neither is the re-added node", what, c13Show(keys[k]), b.idx, a.idx)
 					}
 				}
 			}
@@ -605,11 +783,17 @@ func c13Interp(c c13Case) (v kit.Verdict) {
 		}
 		for k := range keys {
 			if want[k].idx != after[k].idx {
-				return v.Failf("%s: Get(%v) = node %d, but a fresh ring with the same membership and settings gives node %d (residue of the history)", what, keys[k], after[k].idx, want[k].idx)
+				return v.Failf("%s: Get(%s) = node %d, but a fresh ring with the same membership and settings gives node %d (residue of the history)", what, c13Show(keys[k]), after[k].idx, want[k].idx)
+			}
+		}
+		// the twin ring is an independent model: its map is that of a fresh ring with ITS membership
+		if c.Twin && c.Style != 3 {
+			if f := c13Checkpoint(tc, h2, st2, keys, ident, what+": twin ring"); f != "" {
+				return v.Failf("%s", f)
 			}
 		}
 		// vnode-count (only where the constructor argument is the replica count itself)
-		if (c.R < 0 || c.R >= 100) && !c13NoWhiteBox {
+		if (c.R < 0 || c.R >= 100) && c.Neg == 0 && !c13NoWhiteBox {
 			if foreign != 0 {
 				return v.Failf("%s: ring holds %d entries that are not nodes of this history", what, foreign)
 			}
@@ -639,6 +823,211 @@ func c13Interp(c c13Case) (v kit.Verdict) {
 	return v
 }
 
+// c13Checkpoint judges a ring against its model without reference to an earlier
+// map: totality (ok iff a positive node is present; the result is a present,
+// positive node and the object added last), equality with a fresh ring holding
+// the model's membership, and (in-package) the virtual-node count. It starts
+// and ends with a lookup of keys[0], so that consecutive checkpoints look the
+// same key up back to back across the operations in between.
+func c13Checkpoint(c c13Case, h *ConsistentHash, st []c13State, keys []any, ident func(any) int, what string) string {
+	got, pan := c13Lookup(h, keys, ident)
+	if pan != "" {
+		return fmt.Sprintf("%s: Get panicked: %s", what, pan)
+	}
+	anyPositive := false
+	fresh := c13New(c)
+	for _, s := range st {
+		if s.present {
+			anyPositive = anyPositive || s.positive
+			if pan := c13Apply(fresh, s.op, s.obj); pan != "" {
+				return fmt.Sprintf("%s: rebuilding the membership on a fresh ring panicked: %s", what, pan)
+			}
+		}
+	}
+	want, pan := c13Lookup(fresh, keys, ident)
+	if pan != "" {
+		return fmt.Sprintf("%s: Get on a fresh ring panicked: %s", what, pan)
+	}
+	for k, a := range got {
+		switch {
+		case !anyPositive && a.idx != -1:
+			return fmt.Sprintf("%s: no node of positive weight is present but Get(%s) returned node %d", what, c13Show(keys[k]), a.idx)
+		case !anyPositive:
+		case a.idx == -1:
+			return fmt.Sprintf("%s: Get(%s) reports absence although a node of positive weight is present", what, c13Show(keys[k]))
+		case a.idx < 0 || !st[a.idx].present || !st[a.idx].positive:
+			return fmt.Sprintf("%s: Get(%s) returned %v, which is not a currently added node of positive weight", what, c13Show(keys[k]), a.obj)
+		case !c13Same(a.obj, st[a.idx].obj):
+			return fmt.Sprintf("%s: Get(%s) returned a replaced object of node %d", what, c13Show(keys[k]), a.idx)
+		}
+		if want[k].idx != a.idx {
+			return fmt.Sprintf("%s: Get(%s) = node %d, but a fresh ring with the same membership and settings gives node %d", what, c13Show(keys[k]), a.idx, want[k].idx)
+		}
+	}
+	if last, pan := c13Lookup(h, keys[:1], ident); pan != "" || last[0].idx != got[0].idx {
+		return fmt.Sprintf("%s: Get(%s) returned node %d, then node %d with unchanged membership (%s)", what, c13Show(keys[0]), got[0].idx, last[0].idx, pan)
+	}
+	if c.Neg == 0 && (c.R < 0 || c.R >= 100) && !c13NoWhiteBox {
+		counts, collision, foreign, nkeys := c13Inspect(h, ident, len(st))
+		total := 0
+		for j, s := range st {
+			total += counts[j]
+			if !collision && (counts[j] < s.lo || counts[j] > s.hi) {
+				return fmt.Sprintf("%s: node %d owns %d virtual nodes, its setting %+v allows %d..%d", what, j, counts[j], s.op, s.lo, s.hi)
+			}
+		}
+		if !collision && (foreign != 0 || nkeys != total || c13SelfDup > 0) {
+			return fmt.Sprintf("%s: %d positions in keys, %d virtual nodes on the ring, %d foreign entries, %d self-duplicates", what, nkeys, total, foreign, c13SelfDup)
+		}
+	}
+	return ""
+}
+
+// ------------------------------------------------------------ churn rule
+//
+// A long-lived ring: segments of 1 .. 65536 cheap membership operations (drawn
+// from a splitmix64 stream of the case's seed, never stored in the case), a
+// checkpoint (c13Checkpoint over 120 probe keys) after every segment. The
+// segment lengths sit on the counter boundaries 255/256/257, 1000, 4096, 65535/6/7.
+
+type c13ChurnCase struct {
+	R     int   `json:"r"`
+	NilFn bool  `json:"nilfn,omitempty"`
+	Style int   `json:"style"`
+	Kinds []int `json:"kinds"`
+	KS    int   `json:"ks"`
+	Seed  int   `json:"seed"`
+	Segs  []int `json:"segs"` // operations between checkpoints
+	Per   int   `json:"per"`  // > 0: after every operation ONE key (number op mod Per) is looked up and compared with a fresh ring, so every key is seen again after exactly Per operations
+}
+
+func c13ChurnInterp(cc c13ChurnCase) (v kit.Verdict) {
+	c := c13Case{R: cc.R, NilFn: cc.NilFn, Style: cc.Style, Kinds: cc.Kinds, KS: cc.KS, NK: 120}
+	classes := map[string]bool{}
+	defer func() {
+		for k := range classes {
+			v.Classes = append(v.Classes, k)
+		}
+		sort.Strings(v.Classes)
+	}()
+	nn := len(c.Kinds)
+	effR := c13EffR(c)
+	ident := c13Ident(c)
+	keys := c13Keys(c.KS, c.NK)
+	h := c13New(c)
+	st := make([]c13State, nn)
+	x := uint64(cc.Seed)*0x9E3779B97F4A7C15 + 1
+	next := func(n int) int {
+		x += 0x9E3779B97F4A7C15
+		z := x
+		z = (z ^ (z >> 30)) * 0xBF58476D1CE4E5B9
+		z = (z ^ (z >> 27)) * 0x94D049BB133111EB
+		z ^= z >> 31
+		return int(z % uint64(n))
+	}
+	total := 0
+	var pkeys []any
+	if cc.Per > 0 {
+		pkeys = c13Keys(c.KS+1, cc.Per)
+		classes["probe-period:"+strconv.Itoa(cc.Per)] = true
+	}
+	if f := c13Checkpoint(c, h, st, keys, ident, "before the first operation"); f != "" {
+		return v.Failf("%s", f)
+	}
+	for si, seg := range cc.Segs {
+		for j := 0; j < seg; j++ {
+			o := c13Op{N: next(nn)}
+			switch next(8) {
+			case 0, 1, 2:
+				o.K = "rm"
+			case 3, 4:
+				o.K = "add"
+			case 5, 6:
+				o.K, o.W = "addw", []int{0, 1, 33, 50, 100, 101}[next(6)]
+			default:
+				o.K, o.W = "addr", next(effR+5)
+			}
+			obj := st[o.N].obj
+			if obj == nil || next(3) == 0 {
+				obj = c13MakeNode(c, o.N, total, 0)
+			}
+			if pan := c13Apply(h, o, obj); pan != "" {
+				return v.Failf("segment %d, operation %d (%+v) panicked: %s", si, total, o, pan)
+			}
+			if o.K == "rm" {
+				st[o.N] = c13State{}
+			} else {
+				pos, lo, hi := c13Setting(o, effR)
+				st[o.N] = c13State{present: true, positive: pos, op: o, obj: obj, lo: lo, hi: hi}
+			}
+			total++
+			if cc.Per > 0 && total <= 20000 { // every probe rebuilds a fresh ring: bounded
+				key := pkeys[total%cc.Per : total%cc.Per+1]
+				got, pan := c13Lookup(h, key, ident)
+				if pan != "" {
+					return v.Failf("operation %d (%+v): Get(%s) panicked: %s", total, o, c13Show(key[0]), pan)
+				}
+				fresh := c13New(c)
+				for _, s := range st {
+					if s.present {
+						c13Apply(fresh, s.op, s.obj)
+					}
+				}
+				want, _ := c13Lookup(fresh, key, ident)
+				if got[0].idx != want[0].idx {
+					return v.Failf("after operation %d (%+v): Get(%s) = node %d, a fresh ring with the same membership gives node %d (the key was last looked up %d operations earlier)", total, o, c13Show(key[0]), got[0].idx, want[0].idx, cc.Per)
+				}
+			}
+		}
+		classes["segment:"+strconv.Itoa(seg)] = true
+		if f := c13Checkpoint(c, h, st, keys, ident, fmt.Sprintf("checkpoint after segment %d (%d operations, %d in total)", si, seg, total)); f != "" {
+			return v.Failf("%s", f)
+		}
+	}
+	v.NonTrivial = total >= 1000 && len(cc.Segs) >= 2
+	return v
+}
+
+func c13ChurnGen(rt *rapid.T) c13ChurnCase {
+	c := c13ChurnCase{R: -1}
+	if rapid.Bool().Draw(rt, "custom") {
+		c.R = rapid.SampledFrom([]int{100, 101, 127, 128, 129, 255, 256, 257}).Draw(rt, "r")
+		c.NilFn = rapid.Bool().Draw(rt, "nilfn")
+	}
+	c.Style = rapid.SampledFrom([]int{0, 1, 2, 4}).Draw(rt, "style")
+	nn := rapid.IntRange(2, 8).Draw(rt, "nodes")
+	for i := 0; i < nn; i++ {
+		c.Kinds = append(c.Kinds, int(rapid.Uint64().Draw(rt, "kind")%8))
+	}
+	c.KS = rapid.IntRange(0, 1<<20).Draw(rt, "ks")
+	c.Seed = rapid.IntRange(0, 1<<30).Draw(rt, "seed")
+	lens := []int{1, 255, 256, 257, 1000, 4096}
+	budget := 8000
+	if kit.Thorough() {
+		lens = append(lens, 65535, 65536, 65537, 10000)
+		budget = 80000
+	}
+	pers := []int{0, 100, 128, 200, 213, 256, 257, 300, 1000}
+	if kit.Thorough() {
+		pers = append(pers, 2048, 4096)
+	}
+	c.Per = pers[int(rapid.Uint64().Draw(rt, "per")%uint64(len(pers)))]
+	n := rapid.IntRange(2, 6).Draw(rt, "segments")
+	for i := 0; i < n; i++ {
+		l := lens[int(rapid.Uint64().Draw(rt, "len")%uint64(len(lens)))]
+		if l > budget {
+			l = 256
+		}
+		budget -= l
+		c.Segs = append(c.Segs, l)
+	}
+	return c
+}
+
+func TestVerif_C13_churn(t *testing.T) {
+	kit.Run(t, "C13", "churn", kit.Opts{Quick: 6, Thorough: 48}, c13ChurnGen, c13ChurnInterp)
+}
+
 // c13GenOp: present tracks which nodes the generator believes to be added, so
 // that most removals hit a present node (removing an absent node stays possible).
 func c13GenOp(rt *rapid.T, nn, effR int, present []bool) c13Op {
@@ -664,8 +1053,12 @@ func c13GenOp(rt *rapid.T, nn, effR int, present []bool) c13Op {
 		switch {
 		case sel == 0:
 			o.W = 0
-		case sel == 1:
-			o.W = rapid.IntRange(101, 130).Draw(rt, "w")
+		case sel == 1: // above 100 %: capped (no overflow: replicas <= 300 here)
+			if rapid.Bool().Draw(rt, "wbig") {
+				o.W = rapid.SampledFrom([]int{127, 128, 129, 255, 256, 257, 32767, 32768, 65535, 65536, 65537, 1<<31 - 1, 1 << 31, 1 << 32, 1000000007}).Draw(rt, "w")
+			} else {
+				o.W = rapid.IntRange(101, 130).Draw(rt, "w")
+			}
 		case sel == 2:
 			o.W = rapid.SampledFrom([]int{1, 100}).Draw(rt, "w")
 		default:
@@ -675,8 +1068,12 @@ func c13GenOp(rt *rapid.T, nn, effR int, present []bool) c13Op {
 		switch {
 		case sel == 0:
 			o.W = 0
-		case sel <= 2:
-			o.W = rapid.IntRange(effR, 2*effR+5).Draw(rt, "w")
+		case sel <= 2: // at or above the cap
+			if rapid.Bool().Draw(rt, "rbig") {
+				o.W = rapid.SampledFrom([]int{32768, 65535, 65536, 65537, 1<<31 - 1, 1 << 31, 1<<32 + 1, 1 << 53, math.MaxInt64 - 1, math.MaxInt64}).Draw(rt, "w")
+			} else {
+				o.W = rapid.IntRange(effR, 2*effR+5).Draw(rt, "w")
+			}
 		case sel == 3:
 			o.W = 1
 		default:
@@ -705,7 +1102,12 @@ func c13Gen(rt *rapid.T) c13Case {
 	if c.R >= 0 {
 		c.NilFn = rapid.Bool().Draw(rt, "nilfn")
 	}
-	c.Style = rapid.SampledFrom([]int{0, 0, 0, 1, 1, 1, 2, 2, 2, 3}).Draw(rt, "style")
+	c.Style = rapid.SampledFrom([]int{0, 0, 0, 1, 1, 1, 2, 2, 2, 3, 4, 4}).Draw(rt, "style")
+	if rapid.IntRange(0, 19).Draw(rt, "negr") == 0 {
+		c.R, c.Neg = 50, rapid.SampledFrom([]int{-1, -100, math.MinInt64, math.MinInt32}).Draw(rt, "neg")
+	}
+	c.Twin = rapid.IntRange(0, 5).Draw(rt, "twin") == 0
+	c.PK = rapid.IntRange(0, 9).Draw(rt, "pk") == 0
 	nn := rapid.SampledFrom([]int{1, 2, 3, 3, 4, 4, 5, 5, 6, 6}).Draw(rt, "nodes")
 	for i := 0; i < nn; i++ {
 		c.Kinds = append(c.Kinds, int(rapid.Uint64().Draw(rt, "kind")%8))
@@ -726,6 +1128,16 @@ func c13Gen(rt *rapid.T) c13Case {
 		}
 		c.Ops = append(c.Ops, o)
 	}
+	// UNSPECIFIED settings (negative; weight*replicas overflowing int64): last op only
+	if rapid.IntRange(0, 9).Draw(rt, "unspec") == 0 {
+		o := c13Op{N: rapid.IntRange(0, nn-1).Draw(rt, "un"), U: true}
+		if rapid.Bool().Draw(rt, "uk") {
+			o.K, o.W = "addw", rapid.SampledFrom([]int{-1, -100, math.MinInt64, 1 << 62, math.MaxInt64}).Draw(rt, "uw")
+		} else {
+			o.K, o.W = "addr", rapid.SampledFrom([]int{-1, math.MinInt32, math.MinInt64}).Draw(rt, "uw")
+		}
+		c.Ops = append(c.Ops, o)
+	}
 	return c
 }
 
@@ -737,7 +1149,7 @@ func c13Gen(rt *rapid.T) c13Case {
 // cases and the separate driver unit lib/hash@huge.
 func c13HugeGen(rt *rapid.T) c13Case {
 	c := c13Case{NK: 300}
-	rs := []int{65537, 65600, 66000, 70000}
+	rs := []int{65537, 65600, 66000, 70000, 32767, 32768, 32769}
 	if kit.Thorough() {
 		rs = append(rs, 100000, 131072, 65536, 65535)
 	}
@@ -745,6 +1157,9 @@ func c13HugeGen(rt *rapid.T) c13Case {
 	c.NilFn = rapid.Bool().Draw(rt, "nilfn")
 	c.Style = rapid.IntRange(0, 2).Draw(rt, "style")
 	nn := rapid.IntRange(2, 3).Draw(rt, "nodes")
+	if c.R >= 100000 { // a removal costs 5-10 s of CPU there: keep the case short
+		nn = 2
+	}
 	for i := 0; i < nn; i++ {
 		c.Kinds = append(c.Kinds, int(rapid.Uint64().Draw(rt, "kind")%8))
 	}
@@ -775,7 +1190,7 @@ func c13HugeGen(rt *rapid.T) c13Case {
 		c.Ops = append(c.Ops, setting(i, i == 0)) // node 0 always holds all replicas
 	}
 	m := 1 // quick tier: one removal / re-add (each costs seconds on such a ring)
-	if kit.Thorough() {
+	if kit.Thorough() && c.R < 100000 {
 		m = rapid.IntRange(1, 2).Draw(rt, "changes")
 	}
 	for i := 0; i < m; i++ {
@@ -793,11 +1208,11 @@ func c13HugeGen(rt *rapid.T) c13Case {
 }
 
 func TestVerif_C13_huge(t *testing.T) {
-	kit.Run(t, "C13", "huge-ring", kit.Opts{Quick: 3, Thorough: 32}, c13HugeGen, c13Interp)
+	kit.Run(t, "C13", "huge-ring", kit.Opts{Quick: 3, Thorough: 16}, c13HugeGen, c13Interp)
 }
 
 func TestVerif_C13_history(t *testing.T) {
-	kit.Run(t, "C13", "history", kit.Opts{Quick: 3000, Thorough: 64000}, c13Gen, c13Interp)
+	kit.Run(t, "C13", "history", kit.Opts{Quick: 1600, Thorough: 48000}, c13Gen, c13Interp)
 }
 
 // ------------------------------------------------------------ balance rule
@@ -910,7 +1325,7 @@ func c13BalInterp(c c13Case) (v kit.Verdict) {
 			V += s.k
 		}
 	}
-	keys := c13Keys(c.KS, c.NK)
+	keys := c13DistinctKeys(c.KS, c.NK)
 	res, pan := c13Lookup(h, keys, ident)
 	if pan != "" {
 		return v.Failf("Get panicked: %s", pan)
@@ -918,10 +1333,10 @@ func c13BalInterp(c c13Case) (v kit.Verdict) {
 	cnt := make([]int, nn)
 	for i, r := range res {
 		if r.idx < 0 || !st[r.idx].present {
-			return v.Failf("Get(%v) returned (%v, idx %d): not a currently added node", keys[i], r.obj, r.idx)
+			return v.Failf("Get(%s) returned (%v, idx %d): not a currently added node", keys[i], r.obj, r.idx)
 		}
 		if !c13Same(r.obj, st[r.idx].obj) {
-			return v.Failf("Get(%v) returned a replaced object of node %d", keys[i], r.idx)
+			return v.Failf("Get(%s) returned a replaced object of node %d", keys[i], r.idx)
 		}
 		cnt[r.idx]++
 	}
